@@ -164,7 +164,7 @@ func (x *Exec) model(full string) modelFn {
 		return m
 	}
 	// logging, metrics and formatting never touch tracked state
-	for _, p := range []string{"github.com/projecteru2/core/log.", "(*github.com/projecteru2/core/log.Fields).", "github.com/projecteru2/core/metrics.",
+	for _, p := range []string{"github.com/projecteru2/core/log.", "(*github.com/projecteru2/core/log.Fields).", "(github.com/projecteru2/core/log.Fields).", "github.com/projecteru2/core/metrics.",
 		"(*github.com/projecteru2/core/metrics.", "fmt.Sprint", "fmt.Print", "fmt.Fprint", "strconv.", "github.com/sanity-io/litter.", "time.Now", "time.Since"} {
 		if strings.HasPrefix(full, p) {
 			x.trusted["dropped call (no effect on tracked state): "+p+"*"] = true
